@@ -209,7 +209,7 @@ def make_v3(path, rng, T=8, F=6, n_ants=2, shuffle_bls=True, dup_final_dump=Fals
             with_flags=True, with_weights=True, activity=None, targets=None, labels=None, extra_sensors=None,
             int_time=2.0, t0=1500000000.0, open_kwargs=None, bandwidth=None, cbid='1500000000',
             obs_params=None, scale_factor_timestamp=2.0 ** 30, sync_offset=1000.0, centroid=True,
-            version='3.9', pols='hv', seed=None, open=True):
+            version='3.9', pols='hv', seed=None, open=True, cbf_int_time=None):
     """Write a v3 file and open it.  `t0` is the MID time of the first dump.
 
     extra_sensors : {'<component>/<sensor>': events} below TelescopeModel (component group is created with the
@@ -221,6 +221,9 @@ def make_v3(path, rng, T=8, F=6, n_ants=2, shuffle_bls=True, dup_final_dump=Fals
         np.lib.utils.safe_eval (h5datav3.py:371) -- removed in numpy 2, so such a file only opens without that sensor.
     centroid=False writes dump START times without the timestamp_reference attribute (old RTS style);
         the reader then adds half a CBF dump.
+    cbf_int_time (with centroid=False): the CBF dump period differs from the L0 dump period `int_time` (early AR1
+        style: several CBF dumps per L0 dump, TelescopeModel/sdp.l0_int_time): the stored time is half a CBF dump
+        before the centroid.
     """
     if sideband not in (1, -1):
         raise ValueError('sideband must be +1 or -1')
@@ -242,7 +245,7 @@ def make_v3(path, rng, T=8, F=6, n_ants=2, shuffle_bls=True, dup_final_dump=Fals
     weights = nprng.choice(WEIGHT_CHOICES, size=(Ts, F, B)).astype(np.float32)
     weights_channel = nprng.choice(WEIGHT_CHANNEL_CHOICES, size=(Ts, F)).astype(np.float32)
     mid = t0 + int_time * np.arange(T)
-    ts_raw = mid if centroid else mid - 0.5 * int_time
+    ts_raw = mid if centroid else mid - 0.5 * (cbf_int_time if cbf_int_time is not None else int_time)
     if dup_final_dump:
         ts_raw = np.r_[ts_raw, ts_raw[-1]]
     stored = {'vis_pairs': pairs, 'timestamps_raw': ts_raw}
@@ -275,7 +278,11 @@ def make_v3(path, rng, T=8, F=6, n_ants=2, shuffle_bls=True, dup_final_dump=Fals
         tm = f.create_group('TelescopeModel')
         cbf = tm.create_group('cbf')
         cbf.attrs['class'] = 'CorrelatorBeamformer'
-        cbf.attrs['int_time'] = float(int_time)
+        cbf.attrs['int_time'] = float(int_time if cbf_int_time is None else cbf_int_time)
+        if cbf_int_time is not None:
+            sdp = tm.create_group('sdp')
+            sdp.attrs['class'] = 'ScienceDataProcessor'
+            sdp.attrs['l0_int_time'] = float(int_time)
         cbf.attrs['scale_factor_timestamp'] = float(scale_factor_timestamp)
         cbf.attrs['sync_time'] = float(t0 - sync_offset)
         cbf.attrs['n_chans'] = int(F)
@@ -340,12 +347,14 @@ def make_v3(path, rng, T=8, F=6, n_ants=2, shuffle_bls=True, dup_final_dump=Fals
 def make_v2(path, rng, T=8, F=6, n_ants=2, shuffle_bls=True, dup_final_dump=False, activity=None, targets=None,
             labels=None, int_time=1.0, t0=1300000000.0, open_kwargs=None, with_flags=True, with_weights=False,
             extra_sensors=None, centre_freq=1822e6, bandwidth=400e6, mode='wbc', version='2.1',
-            pols='hv', seed=None, open=True):
+            pols='hv', seed=None, open=True, lost=None):
     """Write a v2 (KAT-7) file and open it.  `t0` is the MID time of the first dump; the file stores dump
     START times (t0 - int_time/2 + k*int_time) and the reader adds half a dump period.
 
     extra_sensors : {'<path below MetaData/Sensors>': events}, e.g. 'Antennas/ant1/pos.actual-scan-azim',
         'Enviro/asc.air.temperature'.
+    lost : dump numbers (of the regular grid of T dumps) that were never written: the file holds T - len(lost) dumps with
+        irregular timestamps (sensor events stay where they are in absolute time).
     centre_freq may also be a list of (dump_offset, Hz) events (several spectral windows, katdal then keeps only
         the dumps of spw 0 by default); the expected values of the result describe the FIRST event's window and
         all T dumps, so they are only directly comparable for a single centre frequency.
@@ -364,6 +373,10 @@ def make_v2(path, rng, T=8, F=6, n_ants=2, shuffle_bls=True, dup_final_dump=Fals
     ts_raw = mid - 0.5 * int_time
     if dup_final_dump:
         ts_raw = np.r_[ts_raw, ts_raw[-1]]
+    if lost:
+        keep = [i for i in range(Ts) if i not in set(lost)]
+        pairs, flags, weights, ts_raw = pairs[keep], flags[keep], weights[keep], ts_raw[keep]
+        T, Ts = T - len(set(lost)), len(keep)
     stored = {'vis_pairs': pairs, 'timestamps_raw': ts_raw}
     if with_flags:
         stored['flags'] = flags
